@@ -11,7 +11,7 @@ RULE = ("every base program up to size n with every placement of <=k deviations 
         "items and flushes, AsyncContext/NonAsyncContext/scoped override, probes, third kind, lazily computed futures), "
         "every flush schedule, both builds; each execution is repeated under every option subset of size <=1 (quick) / <=2 "
         "(thorough) of the 19 boolean debug options plus all-on and all-dumps-on, and under COLLECT_PERF_STATS with a "
-        "scripted clock stepping 1us..24h per call; thorough also walks all 2^19 subsets on 6 feature-dense programs. "
+        "scripted clock stepping 1us..24h per call; thorough also walks all 2^19 subsets on the feature-dense programs. "
         "Oracle: the observation (outcome, values, flush log with item ids, decisions, context events, probes, step counts) "
         "is identical to the one under default options; diagnostic streams are captured and ignored. "
         "non-trivial = (program, schedule, option set) triples whose option set is non-default")
@@ -21,7 +21,7 @@ ASSUMPTIONS = [
     "the clock seen by the profiling code is the scripted utime(); time.time() only gates diagnostic output",
 ]
 MENU = ["ins:sync", "ins:raise", "wrap:try", "item:err", "item:unset", "flush:raise", "wrap:A", "wrap:N", "wrap:S0",
-        "ins:probe", "item:c", "leaf:lzok", "leaf:lzraise", "leaf:sh", "ins:res", "ins:iv", "leaf:bt"]
+        "ins:probe", "item:c", "leaf:lzok", "leaf:lzraise", "leaf:sh", "ins:res", "ins:iv", "leaf:bt", "leaf:cu"]
 CATS = ["option-changes-behaviour", "hang", "worker-died"]
 LADDER = {"quick": [(4, 0, ["call"]), (3, 1, ["call"])],
           "thorough": [(5, 0, ["call"], {"pairs": False}), (4, 1, ["call"], {"pairs": False}), (3, 1, ["call"])]}
@@ -60,6 +60,8 @@ DENSE = [
     ("P", _t(_y(_L(_c(_y(IA), _y(IB)), _c(_y(_L(IA, ("bt", "a"))), _y(("bt", "b"))), IB))), (), ()),
     # the library's own DebugBatch/DebugBatchItem (cdef classes without __dict__ in the compiled build) next to a harness kind
     ("P", _t(_y(_L(_c(_y(("dbi", "x")), _y(IA)), _c(_y(_L(("dbi", "x"), ("dbi", "x")))), ("dbi", "x"))), _y(("dbi", "x"))), (), ()),
+    # tasks called with an argument whose repr() raises RuntimeError (every dump / profiler name has to cope), one of them failing
+    ("P", _t(_y(_L(("cu", _t(_y(IA), _y(IB))), ("cu", _t(_y(IB), ("raise",))), IB)), ("try", (_y(("cu", _t(("raise",)))),), (_y(IA),))), (), ()),
 ]
 
 
